@@ -1,9 +1,12 @@
 """V-typecheck: the run-time type comparison behind type hints (crates/runtime/src/vm.rs
 compare_value_type).
 
-Verus treats the string patterns of the function ("Any", "Callable", ...) as uninterpreted, so only
-what holds for EVERY hint is claimed: `?` admits null for every kind of hint, the function cannot
-panic (the unwrap after contains_meta_key), and a value whose own type name is the hint passes.
+Verus leaves string-literal patterns uninterpreted, so rule R14 turns the `match` on the hint
+("Any", "Callable", ...) into the if-chain rustc compiles it to. Claimed: `?` admits null for every
+hint; Any admits everything; Callable / Indexable / Iterable are exactly the three predicates; a type
+name admits a value whose own type name it is, or one of whose @base ancestors has that name, and
+nothing else passes without such an ancestor; the function cannot panic (unwrap after contains_meta_key).
+Not claimed: termination on a cyclic @base chain.
 
 Contracts only. Function bodies come from /repo at run time.
 """
@@ -22,26 +25,41 @@ uninterp spec fn base_key() -> MetaKey;
 #[verifier::external_body]
 fn meta_key_base() -> (r: MetaKey) ensures r == base_key() { unimplemented!() }
 
+// `"lit" => ..` arms (rule R14): a &str pattern matches by equality
+#[verifier::external_body]
+fn str_is(s: &str, lit: &str) -> (r: bool) ensures r == (s@ == lit@) { unimplemented!() }
+
 #[verifier::external_body] struct KMap { _p: u8 }
 impl KMap {
     uninterp spec fn has_meta(&self, key: MetaKey) -> bool;
+    uninterp spec fn meta(&self, key: MetaKey) -> KValue;
     // assumed contract of KMap (map.rs): a meta key that is contained can be read
     #[verifier::external_body]
     fn contains_meta_key(&self, key: &MetaKey) -> (r: bool) ensures r == self.has_meta(*key) { unimplemented!() }
     #[verifier::external_body]
-    fn get_meta_value(&self, key: &MetaKey) -> (r: Option<KValue>) ensures (r is Some) == self.has_meta(*key) { unimplemented!() }
+    fn get_meta_value(&self, key: &MetaKey) -> (r: Option<KValue>) ensures (r is Some) == self.has_meta(*key), r matches Some(v) ==> v == self.meta(*key) { unimplemented!() }
 }
 enum KValue { Null, Map(KMap), Other(Opaque) }
 // whether a value's type name (following @type) is the given string: uninterpreted
-uninterp spec fn named(v: KValue, name: &str) -> bool;
+uninterp spec fn named(v: KValue, name: Seq<char>) -> bool;
+// the @base parent of a value, and its k-th ancestor
+spec fn base_of(v: KValue) -> Option<KValue> {
+    match v { KValue::Map(m) => if m.has_meta(base_key()) { Some(m.meta(base_key())) } else { None }, _ => None }
+}
+spec fn ancestor(v: KValue, k: nat) -> Option<KValue> decreases k {
+    if k == 0 { Some(v) } else { match ancestor(v, (k - 1) as nat) { Some(a) => base_of(a), None => None } }
+}
 impl KValue {
     #[verifier::external_body] fn clone(&self) -> (r: Self) ensures r == *self { unimplemented!() }
-    #[verifier::external_body] fn is_callable(&self) -> bool { unimplemented!() }
-    #[verifier::external_body] fn is_indexable(&self) -> bool { unimplemented!() }
-    #[verifier::external_body] fn is_iterable(&self) -> bool { unimplemented!() }
+    uninterp spec fn callable(&self) -> bool;
+    uninterp spec fn indexable(&self) -> bool;
+    uninterp spec fn iterable(&self) -> bool;
+    #[verifier::external_body] fn is_callable(&self) -> (r: bool) ensures r == self.callable() { unimplemented!() }
+    #[verifier::external_body] fn is_indexable(&self) -> (r: bool) ensures r == self.indexable() { unimplemented!() }
+    #[verifier::external_body] fn is_iterable(&self) -> (r: bool) ensures r == self.iterable() { unimplemented!() }
     // `v.type_as_string() == name` (KString compared with &str; rule R5)
     #[verifier::external_body]
-    fn type_name_is(&self, name: &str) -> (r: bool) ensures r == named(*self, name) { unimplemented!() }
+    fn type_name_is(&self, name: &str) -> (r: bool) ensures r == named(*self, name@) { unimplemented!() }
 }
 struct KotoVm { _p: u8 }
 """
@@ -60,8 +78,22 @@ UNIT = Unit(
 """, impl_of="impl KotoVm"),
         Fn(VM, "impl KotoVm :: fn compare_value_type", props=P,
            # the @base chain of a well-formed program is finite; termination is not claimed
-           attrs=("verifier::exec_allows_no_decreases_clause",),
-           final_guards=1,
+           attrs=("verifier::exec_allows_no_decreases_clause", "verifier::loop_isolation(false)"),
+           final_guards=1, str_match=True,
+           after_open=r"""proof {
+    // the four literals are pairwise different
+    reveal_strlit("Any"); reveal_strlit("Callable"); reveal_strlit("Indexable"); reveal_strlit("Iterable");
+    assert("Any"@.len() == 3 && "Callable"@.len() == 8 && "Indexable"@.len() == 9 && "Iterable"@.len() == 8);
+    assert("Callable"@[0] == 'C' && "Iterable"@[0] == 'I');
+}
+let ghost mut depth: nat = 0;
+let ghost v0 = self.reg(value_register);""",
+           loops={1: """    invariant ancestor(v0, depth) == Some(value), expected_type@ == self.constant(type_index)@, v0 == self.reg(value_register),
+        !named(v0, expected_type@), !(allow_null && v0 is Null),
+        depth > 0 ==> (base_of(v0) matches Some(b) && !named(b, expected_type@)),
+        expected_type@ != "Any"@, expected_type@ != "Callable"@, expected_type@ != "Indexable"@, expected_type@ != "Iterable"@,"""},
+           before=[("value = base;", "proof { depth = depth + 1; }"),
+                   ("if base.type_name_is(expected_type) {", "proof { assert(ancestor(v0, depth + 1) == Some(base)); }")],
            subst=[("value.type_as_string() == expected_type", "value.type_name_is(expected_type)", 1),
                   ("base.type_as_string() == expected_type", "base.type_name_is(expected_type)", 1),
                   ("&MetaKey::Base", "&meta_key_base()", 2)],
@@ -69,6 +101,20 @@ UNIT = Unit(
     ensures
         // C16: "`?` admitting null": for EVERY hint (Any, Callable, Indexable, Iterable or a type name)
         allow_null && self.reg(value_register) is Null ==> r,                                            // @optional_hint_admits_null
+        // the four built-in hints
+        self.constant(type_index)@ == "Any"@ ==> r,                                                      // @any_admits_everything
+        !(allow_null && self.reg(value_register) is Null) && self.constant(type_index)@ == "Callable"@ ==> r == self.reg(value_register).callable(),     // @callable_is_exactly_is_callable
+        !(allow_null && self.reg(value_register) is Null) && self.constant(type_index)@ == "Indexable"@ ==> r == self.reg(value_register).indexable(),   // @indexable_is_exactly_is_indexable
+        !(allow_null && self.reg(value_register) is Null) && self.constant(type_index)@ == "Iterable"@ ==> r == self.reg(value_register).iterable(),     // @iterable_is_exactly_is_iterable
+        // a type name: the value's own type, or the type of one of its @base ancestors
+        named(self.reg(value_register), self.constant(type_index)@)
+          && self.constant(type_index)@ != "Callable"@ && self.constant(type_index)@ != "Indexable"@ && self.constant(type_index)@ != "Iterable"@ ==> r,   // @own_type_name_passes
+        base_of(self.reg(value_register)) matches Some(b) && named(b, self.constant(type_index)@)
+          && self.constant(type_index)@ != "Callable"@ && self.constant(type_index)@ != "Indexable"@ && self.constant(type_index)@ != "Iterable"@ ==> r,   // @base_type_name_passes
+        r && !(allow_null && self.reg(value_register) is Null)
+          && self.constant(type_index)@ != "Any"@ && self.constant(type_index)@ != "Callable"@
+          && self.constant(type_index)@ != "Indexable"@ && self.constant(type_index)@ != "Iterable"@
+          ==> exists|k: nat| (#[trigger] ancestor(self.reg(value_register), k)) matches Some(a) && named(a, self.constant(type_index)@),   // @passes_only_with_a_matching_ancestor
 """),
     ],
     epilogue=r"""
